@@ -306,3 +306,89 @@ theorem gridMP_of_indexed (r : List ℝ) (h2 : 2 ≤ r.length) (hinc : r.Pairwis
     simpa using this
 
 end Radial
+
+namespace Radial
+open Num
+
+/-! ### the uniform-grid construction -/
+
+theorem withRhs_fdUniInterior_cons (dr : ℝ) (i : ℕ) (a : ℝ) (t : List ℝ) (b0 : ℝ) (bs : List ℝ) :
+    ∃ w ws, withRhs (fdUniInterior dr i (a :: t)) (b0 :: bs) = w :: ws := by
+  cases t with
+  | nil => exact withRhs_cons_exists _ _ _ _
+  | cons a' t' => exact withRhs_cons_exists _ _ _ _
+
+/-- the interior rows of `fd_system_uniform_grid` (node index `i ≥ 1`) are of Poisson type -/
+theorem poisRows_fdUniInterior (dr : ℝ) (hdr : 0 < dr) : ∀ (l : List ℝ) (i : ℕ) (b : List ℝ), 1 ≤ i → l ≠ [] →
+    b.length = l.length → PoisRows (withRhs (fdUniInterior dr i l) b) := by
+  intro l
+  induction l with
+  | nil => intro i b _ h; exact absurd rfl h
+  | cons a t ih =>
+    intro i b hi _ hb
+    cases t with
+    | nil =>
+      match b, hb with
+      | [b0], _ => simp [fdUniInterior, withRhs, PoisRows]
+    | cons a' t' =>
+      match b, hb with
+      | b0 :: b1 :: bs, hb =>
+        have ih' := ih (i + 1) (b1 :: bs) (by omega) (by simp) (by simpa using hb)
+        obtain ⟨w, ws, hw⟩ := withRhs_fdUniInterior_cons dr (i + 1) a' t' b1 bs
+        have : withRhs (fdUniInterior dr i (a :: a' :: t')) (b0 :: b1 :: bs) =
+            ⟨(1 - 0.5 / (i : ℝ)) / dr ^ 2, -2 / dr ^ 2, (1 + 0.5 / (i : ℝ)) / dr ^ 2, b0⟩ ::
+              withRhs (fdUniInterior dr (i + 1) (a' :: t')) (b1 :: bs) := by
+          simp [fdUniInterior, withRhs]
+        rw [this, hw]; rw [hw] at ih'
+        have hiR : (1 : ℝ) ≤ i := by exact_mod_cast hi
+        have h05 : (0.5 : ℝ) / i ≤ 0.5 := by
+          rw [div_le_iff₀ (by linarith)]; nlinarith
+        have hd2 : 0 < dr ^ 2 := by positivity
+        refine ⟨⟨?_, ?_, ?_⟩, ih'⟩
+        · apply div_nonneg _ hd2.le; norm_num at h05 ⊢; linarith
+        · apply div_pos _ hd2
+          have : (0 : ℝ) ≤ 0.5 / i := by positivity
+          linarith
+        · field_simp; ring
+
+/-- **`fd_system_uniform_grid` yields a system of Poisson type** for every positive step -/
+theorem poisRows_fdUniform (r0 r1 : ℝ) (rest b : List ℝ) (h01 : r0 < r1) (hb : b.length = rest.length + 2) :
+    PoisRows (withRhs (fdUniform (r0 :: r1 :: rest)) b) := by
+  match b, hb with
+  | b0 :: b1 :: bs, hb =>
+    have hdr : 0 < r1 - r0 := by linarith
+    have htail := poisRows_fdUniInterior (r1 - r0) hdr (r1 :: rest) 1 (b1 :: bs) le_rfl (by simp) (by simpa using hb)
+    obtain ⟨w, ws, hw⟩ := withRhs_fdUniInterior_cons (r1 - r0) 1 r1 rest b1 bs
+    have : withRhs (fdUniform (r0 :: r1 :: rest)) (b0 :: b1 :: bs) =
+        ⟨0, -2 / (r1 - r0) ^ 2, 2 / (r1 - r0) ^ 2, b0⟩ :: withRhs (fdUniInterior (r1 - r0) 1 (r1 :: rest)) (b1 :: bs) := by
+      simp [fdUniform, withRhs]
+    rw [this, hw]; rw [hw] at htail
+    have hpos : 0 < 2 / (r1 - r0) ^ 2 := by positivity
+    exact ⟨⟨le_rfl, hpos, by ring⟩, htail⟩
+
+theorem fdUniInterior_length (dr : ℝ) : ∀ (l : List ℝ) (i : ℕ), (fdUniInterior dr i l).length = l.length := by
+  intro l
+  induction l with
+  | nil => intro i; simp [fdUniInterior]
+  | cons a t ih =>
+    intro i
+    cases t with
+    | nil => simp [fdUniInterior]
+    | cons b t' => simp only [fdUniInterior, List.length_cons]; rw [ih (i + 1)]; simp
+
+theorem fdUniform_length (r0 r1 : ℝ) (rest : List ℝ) : (fdUniform (r0 :: r1 :: rest)).length = rest.length + 2 := by
+  simp [fdUniform, fdUniInterior_length]
+
+theorem fdUniform_head_l (r b : List ℝ) : ∀ rw ∈ (withRhs (fdUniform r) b).head?, rw.l = 0 := by
+  intro rw hrw
+  match r with
+  | [] => simp [fdUniform, withRhs] at hrw
+  | [_] => simp [fdUniform, withRhs] at hrw
+  | r0 :: r1 :: rest =>
+    match b with
+    | [] => simp [fdUniform, withRhs] at hrw
+    | b0 :: bs =>
+      simp only [fdUniform, withRhs, List.head?_cons, Option.mem_def, Option.some.injEq] at hrw
+      subst hrw; simp
+
+end Radial
